@@ -20,7 +20,7 @@ class C17(CheckDef):
     models = {'quick': [ModelRun('HolderMC.tla', 'Holder_seq.cfg', note='one thread: every sequence of 3 calls over all operations and arguments (names 1..2, objects 1..2, types 1..2)'),
                         ModelRun('HolderMC.tla', 'Holder_quick.cfg', workers=16, note='3 threads x 1 and 2 threads (2+1) over a representative operation set')],
               'thorough': [ModelRun('HolderMC.tla', 'Holder_seq.cfg'), ModelRun('HolderMC.tla', 'Holder_quick.cfg', workers=16),
-                           ModelRun('HolderMC.tla', 'Holder_thorough.cfg', workers=16, xmx='28g', timeout=300, simulate='num=500000', note='all operations, 2 threads (2+1); 3 threads (2,2,1): simulation')]}
+                           ModelRun('HolderMC.tla', 'Holder_thorough.cfg', workers=16, xmx='28g', timeout=200, simulate='num=500000', note='all operations, 2 threads (2+1); 3 threads (2,2,1): simulation')]}
     conf = ModelRun('HolderMC.tla', 'Holder_conf.cfg')
     conf_limit = {'quick': 2000, 'thorough': None}
     trace_spec = ('HolderTrace.tla', 'HolderTrace.cfg')
